@@ -36,9 +36,10 @@ SHAPES = {
     "TSB_TSL": {"k": "TSB", "fs": [TS, {"k": "TSL", "n": 2, "el": TS}]},
     "TSD_TSB": {"k": "TSD", "el": {"k": "TSB", "fs": [TS, TS]}},
     "TSD_TSD": {"k": "TSD", "el": {"k": "TSD", "el": TS}},
+    "UTSB": {"k": "TSB", "fs": [TS, TS]},       # un-peered bundle INPUT assembled from two scalar writers (activity toggled at run time)
     "DTSL": {"k": "TSL", "n": 8, "dyn": 1, "el": TS},      # dynamic (unsized) TSL<TS<Int>>, indices 0..7
 }
-KEEP_COLL = {"ops", "w", "p", "ret"}
+KEEP_COLL = {"ops", "w", "p", "k", "ret"}
 KEEP_RR = {"p", "ap", "rec", "ret", "norec"}
 OWN = {"C04": ("C04.",), "C05": ("C05.",), "C20": ("C20.",)}
 
@@ -357,11 +358,17 @@ def judge(pid, chk, cases, verdicts, spec):
 
 
 def graph1(events):
-    return [e for e in events if e.get("g", 1) == 1 and e["e"] in KEEP_COLL]
+    """graph 1 of a scenario for CollTrace; the probe on the dictionary's key set (id 5) becomes a `k` event"""
+    out = []
+    for e in events:
+        if e.get("g", 1) != 1 or e["e"] not in KEEP_COLL:
+            continue
+        out.append(dict(e, e="k") if e["e"] == "p" and e.get("id") == 5 else e)
+    return out
 
 
 def rr_events(events):
-    return [e for e in events if e["e"] in KEEP_RR and not (e["e"] == "p" and e.get("id") == 2)]
+    return [e for e in events if e["e"] in KEEP_RR and not (e["e"] == "p" and e.get("id") in (2, 5))]
 
 
 def replay(path):
